@@ -196,6 +196,10 @@ def run(tier='quick'):
     chk.extra['calls_inlined'] = an.stats['calls']
     if n_entries < 110:
         chk.fail_broken('only %d mutating entry points found (floor 110)' % n_entries)
+    A10 = chk.rule('A10', 'only the transaction guard class issues transaction-control statements, so that the scope rules '
+                          'above (A1 - A3, A5) see every transaction there is', floor=3)
+    from . import extra as _extra
+    _extra.transaction_control_only_in_guard(prog, cg, eff, chk, A10)
     return chk.finish(
         'path analysis of write units over the structured AST of %d mutating entry points '
         '(façade methods of track / crate / database and the mutators of the five 2.x table '
